@@ -124,4 +124,20 @@ CLAIMED["C08"] = {
     "note": COMMON_NOTE + "thread interleavings are not exhibited (the library has no synchronisation; API-call-level interleavings are the op sequences).",
     "technique": T,
 }
+CLAIMED["C05"] = {
+    "text": "C05_roundtrip_partial: for every serialisable type and every well-typed value (nested induction, no depth bound), decode(T(to_dict v)) = v for the "
+            "dict/json/yaml/pickle transports and any set-iteration order, under union_safe (the full statement with Unions is refuted: first-success order "
+            "is lossy - a known finding); C05_lenient (numbers/bools as strings, tuples as lists); C05_file through the regenerated suffix table; the "
+            "dispatch order of get_decoding_fn, the union strategy and the encode registrations are regenerated from the source.",
+    "note": COMMON_NOTE + "json/yaml/pickle codecs and file I/O are modelled as functions on primitives; non-ASCII text only impl-vs-spec.",
+    "technique": T,
+}
+CLAIMED["C13"] = {
+    "text": "C13_primitive_partial (to_dict of a well-typed value of a plain type contains only dict/list/str/int/float/bool/None; OrderedDict and tuple-keyed "
+            "dicts refuted = known findings), C13_hooks_* (to_dict omits exactly the to_dict=False fields, applies field i's encoding_fn to field i only, "
+            "from_dict applies decoding_fn; plain dataclasses inside containers refuted), C13_function (equal values, equal output for a fixed set order; "
+            "refuted across orders). Aliasing / mutation probes on every mutable node are run by the correspondence (sampled).",
+    "note": COMMON_NOTE + "CPython set iteration order is an explicit parameter; object identity is probed on the implementation only.",
+    "technique": T,
+}
 NOT_CLAIMED = {}
